@@ -429,8 +429,14 @@ def _cols(rec, o, restricted, as_code=False):
     slots = [n for _, n in rec._desc.get_field_tuples()] + ["_source", "_classification", "_generated", "_version"]
     F, X = (o["fields"] or [], o["exclude"] or []) if restricted else ([], [])
     if F:
-        ts = [] if as_code else [n for n in ("ts", "ts_description") if o["multits"] and n in slots and n not in F]
-        return ts + [k for k in F if k in slots and k not in X]
+        # rdump hands the writer `ts,ts_description,` + -F under --multi-timestamp (since the fix: commit recorded as
+        # FX-C16-writer-projection-drops-ts): code and property agree on the columns
+        want = (["ts", "ts_description"] if o["multits"] else []) + list(F)
+        out = []
+        for k in want:
+            if k in slots and k not in X and k not in out:
+                out.append(k)
+        return out
     return [k for k in slots if k not in X]
 
 
